@@ -746,3 +746,80 @@ def _stringio_attr(E, obj, h, name):
 
 
 PSEUDO_OBJ_ATTR = {'pyobj:StringIO': _stringio_attr}
+
+
+# ------------------------------------------------------------------ regular expressions (library boundary)
+def _re_exec(E, args, kwargs, node, how):
+    """pattern.match / pattern.search.  Concrete text: CPython's own ``re`` decides (exact).  Symbolic text: the generic
+    assumed contract -- either None, or a match with pos <= start <= end <= len(text) and group(0) == text[start:end]
+    (match: start == pos)."""
+    import re as _re_
+    pat = args[0]
+    text = args[1]
+    pos = args[2] if len(args) > 2 else VC(0)
+    if isinstance(text, VC) and isinstance(text.v, str) and isinstance(pos, VC):
+        rx = _re_.compile(pat.pattern, pat.flags)
+        m = getattr(rx, how)(text.v, pos.v)
+        if m is None:
+            return NONE
+        n = rx.groups
+        spans = [m.span(i) for i in range(n + 1)]
+        groups = [m.group(i) for i in range(n + 1)]
+        return E.alloc(HObj(None, {'groups': [VC(g) for g in groups], 'spans': [(VC(a), VC(b)) for a, b in spans],
+                                   'text': text}, name='match'))
+    s = E.as_z3_str(text)
+    E.lib_used.add('re %s on symbolic text: None, or pos <= start <= end <= len(text), group(0) == text[start:end]%s '
+                   '(generic contract; what the pattern accepts is not modelled)' % (how, ', start == pos' if how == 'match' else ''))
+    if E.decide(2, 're %s fails' % how) == 1:
+        return NONE
+    st, en = E.fresh_int('mstart'), E.fresh_int('mend')
+    p = E.as_z3_int(pos)
+    E.assume(z3.And(p <= st, st <= en, en <= z3.Length(s)))
+    if how == 'match':
+        E.assume(st == p)
+    import re as _re_
+    n = _re_.compile(pat.pattern, pat.flags).groups
+    groups = [VS(z3.SubString(s, st, en - st))] + [VS(z3.String(E.fresh('grp'))) for _ in range(n)]
+    spans = [(VI(st), VI(en))] + [(VI(E.fresh_int('gs')), VI(E.fresh_int('ge'))) for _ in range(n)]
+    return E.alloc(HObj(None, {'groups': groups, 'spans': spans, 'text': text}, name='match'))
+
+
+def match_group(E, obj, idxs):
+    h = E.heap[obj.addr]
+    out = []
+    for i in (idxs or [VC(0)]):
+        if not isinstance(i, VC):
+            raise Unsupported('match.group(symbolic)')
+        try:
+            out.append(h.fields['groups'][i.v])
+        except IndexError:
+            _raise('IndexError', 'no such group')
+    return out[0] if len(out) == 1 else VT(out)
+
+
+def _match_attr(E, obj, h, name):
+    if name in ('group', 'start', 'end', 'groups', 'span'):
+        return VBM(VBI('re.Match.' + name), obj)
+    raise Unsupported('match.' + name)
+
+
+def _match_method(name):
+    def f(E, args, kwargs, node):
+        obj = args[0]
+        h = E.heap[obj.addr]
+        rest = list(args[1:])
+        if name == 'group':
+            return match_group(E, obj, rest)
+        if name == 'groups':
+            return VT(h.fields['groups'][1:])
+        i = rest[0].v if rest else 0
+        a, b = h.fields['spans'][i]
+        return a if name == 'start' else b if name == 'end' else VT([a, b])
+    return f
+
+
+PSEUDO_OBJ_ATTR['match'] = _match_attr
+TABLE['re.Pattern.match'] = lambda E, a, k, n: _re_exec(E, a, k, n, 'match')
+TABLE['re.Pattern.search'] = lambda E, a, k, n: _re_exec(E, a, k, n, 'search')
+for _n in ('group', 'start', 'end', 'groups', 'span'):
+    TABLE['re.Match.' + _n] = _match_method(_n)
